@@ -64,3 +64,55 @@ theorem bracket_nested (d₁ d₂ : Path) (body : Path → World → World × Ex
   · exact fun h => Or.inr h
 
 end Pyndl.Effects
+
+namespace Pyndl.Effects
+open List
+
+theorem below_append (d : Path) (name : String) : below d (d ++ [name]) = true := by
+  simp [below]
+
+theorem chunkBody_onlyBelow (created : List String) (e : Exit) (d : Path) :
+    OnlyBelow d (chunkBody created e) := by
+  intro w p hp
+  simp only [chunkBody, List.mem_append, List.mem_map]
+  constructor
+  · rintro (⟨name, _, rfl⟩ | h)
+    · rw [below_append] at hp; cases hp
+    · exact h
+  · exact fun h => Or.inr h
+
+/-- a path call of a learner: whatever chunk files were created and however the
+    call ended, the world afterwards is the world before -/
+theorem pathCall_clean (created : List String) (e : Exit) (d : Path) (w : World)
+    (hfresh : ∀ p ∈ w, below d p = false) (p : Path) :
+    p ∈ (bracket d (chunkBody created e) w).1 ↔ p ∈ w :=
+  bracket_clean d _ (chunkBody_onlyBelow created e d) w hfresh p
+
+end Pyndl.Effects
+
+namespace Pyndl.Effects
+open List
+
+/-- generator input (after the repair of F7): spool directory and chunk
+    directory are both gone afterwards, whatever the exit, and nothing else
+    changed -/
+theorem generatorCall_clean (s d : Path) (created : List String) (e : Exit) (w : World)
+    (hs : ∀ p ∈ w, below s p = false) (hd : ∀ p ∈ w, below d p = false) (p : Path) :
+    p ∈ (generatorCall s d created e w).1 ↔ p ∈ w := by
+  unfold generatorCall bracket chunkBody
+  simp only [mem_rmtree, List.mem_append, List.mem_map, List.mem_cons]
+  constructor
+  · rintro ⟨⟨h, hpd⟩, hps⟩
+    rcases h with ⟨name, _, rfl⟩ | rfl | rfl | rfl | h
+    · rw [below_append] at hpd; cases hpd
+    · rw [below_self] at hpd; cases hpd
+    · rw [below_append] at hps; cases hps
+    · rw [below_self] at hps; cases hps
+    · exact h
+  · intro h
+    exact ⟨⟨Or.inr (Or.inr (Or.inr (Or.inr h))), hd p h⟩, hs p h⟩
+
+theorem generatorCall_exit (s d : Path) (created : List String) (e : Exit) (w : World) :
+    (generatorCall s d created e w).2 = e := rfl
+
+end Pyndl.Effects
